@@ -1,6 +1,51 @@
 import CkbVerif.Driver.Util
+import CkbVerif.Model.Selector
+
+/-! Line-protocol driver for C13 (protocol: harness/n13/src/c13.rs). -/
 namespace CkbVerif.Driver.C13
-def main (_args : List String) : IO UInt32 := do
-  IO.eprintln "C13: model driver not implemented"
-  return 2
+open CkbVerif.Driver CkbVerif.Selector
+
+structure DSt where
+  ents : List PEntry := []          -- reversed
+  ties : List (Nat × Nat) := []
+
+def DSt.view (s : DSt) : View :=
+  View.ofLinks s.ents.reverse (fun id => match s.ties.find? (·.1 == id) with | some p => p.2 | none => 1000000000 + id)
+
+def sortNat (l : List Nat) : List Nat := sortBy (fun a b => decide (a < b)) l
+
+def step (s : DSt) (ts : List String) : DSt × String :=
+  match ts with
+  | ["pool"] => ({ s with ents := [], ties := [] }, "ok")
+  | ["ent", id, prop, size, cycles, fee, ac, asz, acy, af, kf, kw, kaf, kaw, tie, ps, cs] =>
+    match parseNats? [id, prop, size, cycles, fee, ac, asz, acy, af, kf, kw, kaf, kaw, tie], parseNatList? ps, parseNatList? cs with
+    | some [id, prop, size, cycles, fee, ac, asz, acy, af, kf, kw, kaf, kaw, tie], some ps, some cs =>
+      let e : Entry := ⟨id, size, cycles, fee, ac, asz, acy, af⟩
+      let pe : PEntry := ⟨e, prop != 0, ⟨kf, kw, kaf, kaw⟩, ps, cs⟩
+      ({ s with ents := pe :: s.ents, ties := (id, tie) :: s.ties }, "ok")
+    | _, _, _ => (s, "bad-op")
+  | ["weight", size, cycles] =>
+    match parseNat? size, parseNat? cycles with
+    | some a, some b => (s, toString (weight a b))
+    | _, _ => (s, "bad-op")
+  | ["closure", id] =>
+    match parseNat? id with
+    | some id =>
+      let v := s.view
+      (s, s!"anc={showNatList (sortNat (v.anc id))} desc={showNatList (sortNat (v.desc id))}")
+    | none => (s, "bad-op")
+  | ["hyp"] =>
+    let v := s.view
+    let b (x : Bool) : String := if x then "1" else "0"
+    (s, s!"links={b (decide (LinksOk v))} agg={b (decide (AggExact v))} key={b (decide (KeysOk v))}")
+  | ["select", sl, cl] =>
+    match parseNat? sl, parseNat? cl with
+    | some sl, some cl =>
+      let r := txsToCommit s.view sl cl
+      (s, s!"{showNatList (r.out.map (·.id))} size={r.size} cycles={r.cycles}")
+    | _, _ => (s, "bad-op")
+  | _ => (s, "bad-op")
+
+def main (_args : List String) : IO UInt32 := runLines ({} : DSt) step
+
 end CkbVerif.Driver.C13
